@@ -25,7 +25,11 @@ type LuaAuthorizer struct {
 	code                  string
 	trustForwardedHeaders bool
 	trustedProxyCIDRs     []*net.IPNet
-	tracer                trace.Tracer
+	// restrictProxies is true when a trusted-proxy CIDR list was configured, even
+	// if none of its entries could be parsed. An unusable list must not degrade to
+	// "trust every peer".
+	restrictProxies bool
+	tracer          trace.Tracer
 }
 
 type Options struct {
@@ -70,6 +74,7 @@ func NewLuaAuthorizerWithOptions(code string, options Options) (*LuaAuthorizer, 
 		code:                  code,
 		trustForwardedHeaders: options.TrustForwardedHeaders,
 		trustedProxyCIDRs:     parseTrustedProxyCIDRs(options.TrustedProxyCIDRs),
+		restrictProxies:       len(options.TrustedProxyCIDRs) > 0,
 		tracer:                otel.Tracer("internal/http/server/authorization/lua"),
 	}
 	err := luaAuthorizer.dryRun()
@@ -79,7 +84,7 @@ func NewLuaAuthorizerWithOptions(code string, options Options) (*LuaAuthorizer, 
 	return luaAuthorizer, nil
 }
 
-func isTrustedProxy(remoteIP *string, trustedProxyCIDRs []*net.IPNet) bool {
+func isTrustedProxy(remoteIP *string, trustedProxyCIDRs []*net.IPNet, restrictProxies bool) bool {
 	if remoteIP == nil {
 		return false
 	}
@@ -87,7 +92,7 @@ func isTrustedProxy(remoteIP *string, trustedProxyCIDRs []*net.IPNet) bool {
 	if ip == nil {
 		return false
 	}
-	if len(trustedProxyCIDRs) == 0 {
+	if !restrictProxies {
 		return true
 	}
 	for _, cidr := range trustedProxyCIDRs {
@@ -196,7 +201,7 @@ func (authorizer *LuaAuthorizer) resolveClientIPAndScheme(httpRequest authorizat
 		scheme = "http"
 	}
 
-	if !authorizer.trustForwardedHeaders || !isTrustedProxy(httpRequest.RemoteIP, authorizer.trustedProxyCIDRs) {
+	if !authorizer.trustForwardedHeaders || !isTrustedProxy(httpRequest.RemoteIP, authorizer.trustedProxyCIDRs, authorizer.restrictProxies) {
 		return clientIP, scheme
 	}
 
